@@ -421,6 +421,30 @@ def hostile(spec, acc, ctx):
         prp = fpe_cls(message_bit_length=n, key_bit_length=kb)
         K = Bitset(k1, kb)
         before = [int(prp(K, Bitset(x, n))) for x in range(1 << n)]
+        # the caller owns the bit string it is handed: overwriting it must not change what the PRP answers next time
+        acc.count("hostile.result_scribbled")
+        try:
+            for x in range(1 << n):
+                for obj, call in ((prp, lambda: prp(K, Bitset(x, n))), (ffx, lambda: ffx.encrypt(k1, Bitset(x, n)))):
+                    r = call()
+                    try:
+                        r[0:n] = not bool(ref[k1][x] & 1)
+                    except Exception:
+                        try:
+                            r.value = 0
+                        except Exception:
+                            pass
+            again = [int(prp(K, Bitset(x, n))) for x in range(1 << n)]
+            again_ffx = [int(ffx.encrypt(k1, Bitset(x, n))) for x in range(1 << n)]
+            if again != ref[k1] or again_ffx != ref[k1]:
+                acc.violation("fpe-prp:changed-after-caller-overwrote-result",
+                              f"after the caller overwrote the bit strings it had been handed, the same object maps "
+                              f"{sum(a != b for a, b in zip(again, ref[k1])) + sum(a != b for a, b in zip(again_ffx, ref[k1]))} "
+                              f"inputs differently (n={n})", case)
+                continue
+        except Exception as e:
+            acc.violation("fpe-prp:raised-after-caller-overwrote-result:" + exc_site(e), f"{type(e).__name__}: {e}", case)
+            continue
         acc.count("hostile.fpe_after_refusal")
         for badcall in (lambda: prp(Bitset(0, kb + 8), Bitset(0, n)), lambda: prp(Bitset(0, kb - 8), Bitset(0, n)),
                         lambda: prp(K, Bitset(0, n + 1)), lambda: prp(K, Bitset(0, n - 1)) if n > 2 else None):
